@@ -42,9 +42,14 @@ pub struct PanicInfo {
 impl PanicInfo {
     /// class key component: source file (basename) + message with digits/quoted data normalised
     pub fn site(&self) -> String {
-        let base = self.file.rsplit('/').next().unwrap_or(&self.file);
-        format!("{}:{}", base, normalize_msg(&self.message))
+        site_of(&self.file, &self.rpm_frame, &self.message)
     }
+}
+
+/// class-key component for a panic: source file (basename) + function + normalised message
+pub fn site_of(file: &str, frame: &str, message: &str) -> String {
+    let base = file.rsplit('/').next().unwrap_or(file);
+    format!("{}:{}:{}", base, if frame.is_empty() { "?" } else { frame }, normalize_msg(message))
 }
 
 pub fn normalize_msg(m: &str) -> String {
@@ -66,6 +71,24 @@ pub fn normalize_msg(m: &str) -> String {
         out.truncate(p);
     }
     out.trim().to_string()
+}
+
+/// Function name of the innermost frame whose source file lies in the repository under test
+/// (frames are printed as "N: name" followed by "at path:line:col").
+pub fn first_repo_frame(bt: &str) -> String {
+    let repo = std::env::var("VERIF_REPO").unwrap_or_else(|_| "/repo".into());
+    let needle = format!("at {}/src/", repo.trim_end_matches('/'));
+    let mut prev = "";
+    for l in bt.lines() {
+        let t = l.trim();
+        if t.starts_with(&needle) && !t.contains("verif_hooks") {
+            let name = prev.split_once(": ").map(|(_, n)| n).unwrap_or(prev);
+            // strip generic arguments: they differ between instantiations of one site
+            return name.split('<').next().unwrap_or(name).to_string();
+        }
+        prev = t;
+    }
+    String::new()
 }
 
 thread_local! {
@@ -92,19 +115,14 @@ pub fn install_panic_hook() {
                 "<non-string panic payload>".to_string()
             };
             let (file, line) = info.location().map(|l| (l.file().to_string(), l.line())).unwrap_or_default();
+            let acct = crate::monitor::alloc::pause();
             let bt = std::backtrace::Backtrace::force_capture().to_string();
-            let mut rpm_frame = String::new();
-            for l in bt.lines() {
-                let t = l.trim();
-                // lines look like "12: rpm::rpm::headers::header::Header<T>::parse_header"
-                if let Some((_, name)) = t.split_once(": ") {
-                    if (name.starts_with("rpm::") || name.starts_with("<rpm::")) && !name.contains("verif_hooks") {
-                        rpm_frame = name.to_string();
-                        break;
-                    }
-                }
+            if std::env::var_os("VERIF_DEBUG_BT").is_some() {
+                eprintln!("{bt}");
             }
+            let rpm_frame = first_repo_frame(&bt);
             LAST_PANIC.with(|p| *p.borrow_mut() = Some(PanicInfo { message, file, line, rpm_frame }));
+            crate::monitor::alloc::resume(acct);
         }));
     });
 }
@@ -112,10 +130,11 @@ pub fn install_panic_hook() {
 /// Run `f`, converting a panic into `Err(PanicInfo)`.
 pub fn guard<T>(f: impl FnOnce() -> T) -> Result<T, PanicInfo> {
     install_panic_hook();
-    QUIET.with(|q| *q.borrow_mut() = true);
+    // nesting-safe: restore the previous state afterwards
+    let was_quiet = QUIET.with(|q| std::mem::replace(&mut *q.borrow_mut(), true));
     LAST_PANIC.with(|p| *p.borrow_mut() = None);
     let r = catch_unwind(AssertUnwindSafe(f));
-    QUIET.with(|q| *q.borrow_mut() = false);
+    QUIET.with(|q| *q.borrow_mut() = was_quiet);
     match r {
         Ok(v) => Ok(v),
         Err(_) => Err(LAST_PANIC.with(|p| p.borrow_mut().take()).unwrap_or(PanicInfo {
